@@ -173,6 +173,69 @@ func ternaryKYScenario(P float64) engine.Scenario {
 	}}
 }
 
+// ternaryKYJointScenario: the doc comment of ring.Ternary says "each coefficient in the polynomial is sampled in
+// [-1, 0, 1] with probabilities [0.5*P, 1-P, 0.5*P]": coefficients are drawn one by one from that law, so the law of
+// coefficient 1 must not depend on the value of coefficient 0. Exact masses of (c0,c1) over all 16-bit prefixes;
+// oracle: P(c1=0 | c0=+1) = P(c1=0 | c0=-1) (both = 1-P) up to the undecided mass. Own scenario, own signature.
+const sigKYDependent = "C17/ternary/P/consecutive-coefficients-dependent(sign-of-c[k]-vs-c[k+1])"
+
+func ternaryKYJointScenario(P float64) engine.Scenario {
+	name := fmt.Sprintf("ternary/P=%.4f/knuth-yao-joint-law", P)
+	return engine.Scenario{Name: name, Bound: -1, Fn: func(c *engine.Chooser) {
+		r := ringOf(tinyChain().mod)
+		L := r.MaxLevel()
+		run := func(b0, b1, fill byte) ([]int64, bool) {
+			pre := make([]byte, N)
+			pre[0], pre[1] = b0, b1
+			for i := 2; i < N; i++ {
+				pre[i] = fill
+			}
+			ts := newTernary(c, newPRNG(&stream{prefix: pre, bgSeed: uint64(fill)}), r, ring.Ternary{P: P}, false)
+			pol := r.NewPoly()
+			ts.Read(pol)
+			return ternaryValues(c, "P/Read", r, L, false, pol)
+		}
+		joint := map[[2]int64]int{}
+		undecided := 0
+		for w := 0; w < 1<<16; w++ {
+			a, ok := run(byte(w), byte(w>>8), 0x00)
+			if !ok {
+				return
+			}
+			b, ok := run(byte(w), byte(w>>8), 0xFF)
+			if !ok {
+				return
+			}
+			if a[0] == b[0] && a[1] == b[1] {
+				joint[[2]int64{a[0], a[1]}]++
+			} else {
+				undecided++
+			}
+		}
+		row := func(v0 int64) (zero, tot float64) {
+			for _, v1 := range []int64{-1, 0, 1} {
+				tot += float64(joint[[2]int64{v0, v1}])
+			}
+			return float64(joint[[2]int64{v0, 0}]), tot
+		}
+		zp, tp := row(1)
+		zm, tm := row(-1)
+		c.Note("P=%v: joint masses of (c0,c1) over 65536 prefixes: %v undecided %d; P(c1=0|c0=+1)=%.4f P(c1=0|c0=-1)=%.4f contract %.4f", P, joint, undecided, zp/tp, zm/tm, 1-P)
+		if tp == 0 || tm == 0 || float64(undecided) > 0.05*tp {
+			c.Skip("not enough decided mass to compare the conditional laws")
+			return
+		}
+		tol := 0.02 + float64(undecided)/tp + float64(undecided)/tm
+		if d := zp/tp - zm/tm; d > tol || d < -tol {
+			c.Fail(sigKYDependent, "P=%v: P(c1=0 | c0=+1) = %.4f but P(c1=0 | c0=-1) = %.4f (contract: both %.4f); exact masses over all 16-bit prefixes, %d undecided", P, zp/tp, zm/tm, 1-P, undecided)
+			return
+		}
+		c.Count(2 << 16)
+		c.Cover("ternary-ky-joint", fmt.Sprintf("%.4f", P))
+		c.Outcome(name, zp, tp, zm, tm)
+	}}
+}
+
 // ternaryKYSupportScenario: whole polynomials under structured bit patterns (support, consistency, density sanity).
 func ternaryKYSupportScenario(P float64, ch chainT) engine.Scenario {
 	name := fmt.Sprintf("ternary/P=%.4f/patterns/%s", P, ch.name)
